@@ -51,7 +51,7 @@ ReadOnlyOps == {"Clone", "CloneSeqBag", "Unalign", "Sample", "SampleSeqBag", "Su
                 "MaxCharStats", "Consensus", "CharStats", "CharStatsSite", "CharStatsSeq", "UniqueCharacters",
                 "Entropy", "NbVariableSites", "InformativeSites", "AvgAllelesPerSite", "Pssm", "CountDifferences",
                 "NumGapsUnique", "NumMutationsUnique", "NumMutRef", "ListMutRef", "CountProfile", "ProfileOnly", "SiteConservation", "AlphabetInfo",
-                "BuildBootstrap", "RandSubAlign", "Rarefy", "DetectAlphabet", "Identical", "Query", "New", "CodonAlign"}
+                "BuildBootstrap", "RandSubAlign", "Rarefy", "DetectAlphabet", "Identical", "Query", "New", "CodonAlign", "LongestORFObj"}
 
 Ret(r) == Res(FALSE, r.o, <<>>, r.ret, TRUE)
 Q(o, ret) == Res(FALSE, o, <<>>, ret, TRUE)            \* a query: receiver unchanged, returns ret
@@ -150,6 +150,9 @@ Step(h, op, recv, a) ==
                                        /\ \A r \in 1..Len(o.rows) : HasName(h[a.other], o.rows[r].n)
                                              /\ RowOfName(h[a.other], o.rows[r].n).s = o.rows[r].s])
     [] op = "Query" -> Q(o, NoRet)
+    \* the ORF search as a producer of an object: which ORF comes back is C16's matter (Phase.tla); here the object only
+    \* enters the heap, so that later steps show whether it shares anything with its source (not judged: j = FALSE)
+    [] op = "LongestORFObj" -> Res(FALSE, o, <<>>, NoRet, FALSE)
 
 \* comparison of an observed return record with the specified one
 RetOK(op, a, exp, obs) ==
@@ -200,6 +203,9 @@ RetOK(op, a, exp, obs) ==
                               /\ \A k \in 1..Len(obs.prof) : Len(obs.prof[k].n) = Len(obs.prof[1].n)
                               /\ FoldObservedProfile(obs.prof) = exp.prof
     [] OTHER -> TRUE
+
+\* operations that create an object the machine does not predict (the object is taken as observed)
+UnjudgedCreators == {"LongestORFObj"}
 
 \* ---- the command-line front ---------------------------------------------------------------------------
 \* `goalign <command>` reads the receiver from a file, applies the operation it fronts and prints the outcome:
